@@ -235,7 +235,7 @@ def cost(line):
     op, _, arg = line.partition(' ')
     n = len(arg) // 2
     if op == 'b64x3': return 4e-3
-    if op == 'b64dec': return 4e-10 * n * n + 2e-6
+    if op == 'b64dec': return 4e-10 * n * n + 4e-6 * n + 2e-6      # a table is built for every character looked at
     return 5e-7 * n + 2e-6
 
 
@@ -257,4 +257,297 @@ def spread(light, heavy, ncpu=16):
         part = light[used:used + want]; used += want
         mid = len(part) // 2
         out.extend(part[:mid]); out.extend(groups[k]); out.extend(part[mid:])
+    return out
+
+
+# ================================================================================================ second audit pass
+# Classes that hinge on a RELATION inside the input or between two calls (audit: /tmp/a/C18/AUDIT2.md): what a tolerant, a faster,
+# a more robust or a refactored Base64 would newly branch on.
+
+# block sizes a chunked encoder / decoder would plausibly work in (bytes of input; 3/4 of a line or buffer of text)
+BLOCKS = (45, 48, 54, 57, 60, 63, 64, 96, 100, 128, 192, 255, 256, 300, 384, 510, 512, 570, 576, 750, 765, 768, 1000, 1020, 1023, 1024,
+          1026, 1500, 1536, 2048, 3000, 3072, 4095, 4096, 4098, 6144, 7500, 8190, 8192, 10000)
+
+
+def enc_sizes2(tier, have=()):
+    """EVERY length 0..1000 (thorough: 0..4200), and k * B + r for every block size B, k = 1..4 (quick: 1..2 from 1000 bytes on) and r = -2..2 (a block loop with a
+    remainder: the remainder is empty, a partial group, one whole group), up to 10 002 bytes in quick (decoded again) and 64 KiB in
+    thorough; lengths whose TEXT has 1000, 1024, 2048, 4096, 8192, 10 000 characters are among them (750, 768, 1536, 3072, 6144, 7500)"""
+    quick = tier == 'quick'
+    s = set(range(0, 1001 if quick else 4201))
+    top = 10002 if quick else 65536
+    for b in BLOCKS:
+        for k in (1, 2, 3, 4) if b < 1000 or not quick else (1, 2):
+            for r in (-2, -1, 0, 1, 2):
+                n = k * b + r
+                if 0 <= n <= top: s.add(n)
+    return sorted(s - set(have))
+
+
+ASCII_SAMPLES = [b'user:password', b'Aladdin:open sesame', b'admin:admin', b'{"alg":"HS256","typ":"JWT"}', b'Hello, World!', b'0123456789',
+                 b'The quick brown fox jumps over the lazy dog', b'GET / HTTP/1.1\r\nHost: localhost\r\n\r\n', b'a', b'ab', b'abc', b'abcd',
+                 b'~~~', b'???', b'>>>', b'\x7f\x7f\x7f\x7f', b'\x00\x01\x02\x03\x04', b'key=value&other=thing', b'<?xml version="1.0"?>',
+                 b'sure.', b'sure', b'sur', b'su', b'pleasure.', b'leasure.', b'easure.']
+UTF8_SAMPLES = ['caf\u00e9', 'na\u00efve caf\u00e9', '\u0141\u00f3d\u017a', 'Gr\u00fc\u00dfe', '\u65e5\u672c\u8a9e', 'price: 5\u20ac', 'ok \U0001F600',
+                'user:p\u00e4ss', 'user:pass\u00e9', 'abcdefghijklmnopqrstuvwxy\u00e9', 'abcdefghijklmnopqrstuvwx\u00e9', 'abcdefghijklmnopqrstuvw\u00e9',
+                'abcdefghijklmnopqrstuvwxyz01234\u20ac', '\ufeffabc', 'a\u0301']
+
+
+def enc_ascii(rng, tier):
+    """(class, bytes): 7-bit input - printable text of every length 1..130, the whole 7-bit range, sample credentials / JSON / HTTP -
+    and its NEIGHBOURS that leave the class in one place: exactly one byte >= 0x80 as the last byte, in the last (partial) group,
+    in the first group, at a drawn place; at every place of short texts; UTF-8 text whose only multi-byte character is the tail"""
+    quick = tier == 'quick'
+    out = []
+    printable = bytes(range(0x20, 0x7f))
+    def high_variants(s):
+        n = len(s)
+        if n == 0: return
+        tail0 = n - (n % 3 or 3)                 # first byte of the last group
+        places = {n - 1, tail0, 0, min(2, n - 1), rng.below(n), max(0, tail0 - 1)}
+        for p in sorted(places):
+            for v in (s[p] | 0x80, 0xff, 0x80):
+                out.append(('ascii-one-high', s[:p] + bytes([v]) + s[p + 1:]))
+        if n >= 2:
+            out.append(('ascii-tail-high', s[:tail0] + bytes(b | 0x80 for b in s[tail0:])))
+            out.append(('ascii-body-high', bytes(b | 0x80 for b in s[:tail0]) + s[tail0:]))
+    for n in range(1, 131 if quick else 400):
+        s = bytes(rng.choice(printable) for _ in range(n))
+        out.append(('ascii', s)); high_variants(s)
+        if n % 4 == 1 or not quick:
+            s7 = bytes(rng.below(128) for _ in range(n))
+            out.append(('ascii', s7)); high_variants(s7)
+            d = bytes(rng.choice(b'0123456789') for _ in range(n))
+            out.append(('ascii', d)); out.append(('ascii-one-high', d[:-1] + bytes([d[-1] | 0x80])))
+    for s in ASCII_SAMPLES:
+        out.append(('ascii', s)); high_variants(s)
+        for t in (b'\x80', b'\xff', b'\xc3\xa9', b'\xe2\x82\xac', b'\x00'):
+            out.append(('ascii-tail-high', s + t)); out.append(('ascii-tail-high', t + s))
+    for n in range(1, 13):
+        s = bytes(rng.choice(printable) for _ in range(n))
+        for p in range(n):
+            out.append(('ascii-one-high', s[:p] + bytes([s[p] | 0x80]) + s[p + 1:]))
+    for n in (256, 300, 1000, 1024, 1025, 3000, 4097) + (() if quick else (9000, 20000, 65535)):
+        s = bytes(rng.choice(printable) for _ in range(n))
+        out.append(('ascii', s))
+        if not quick: high_variants(s)
+        else:
+            for p in (n - 1, n - (n % 3 or 3), 0): out.append(('ascii-one-high', s[:p] + bytes([s[p] | 0x80]) + s[p + 1:]))
+    for u in UTF8_SAMPLES:
+        b = u.encode('utf-8')
+        out.append(('utf8-text', b))
+        for k in (1, 2, 3): out.append(('utf8-text', b'x' * k + b)); out.append(('utf8-text', b + b'x' * k))
+    out.append(('ascii', bytes(range(128)))); out.append(('ascii', bytes(range(128)) * 2 + b'\x80'))
+    return out
+
+
+def _utf8_alias(width, rng=None, count=None):
+    """characters of `width` UTF-8 bytes ALL of whose bytes, stripped of the top bit, are alphabet characters (a decoder that walks
+    the bytes and masks or re-bases them sees valid text): lead C2..DA / E1..EF / F0..F3, continuation AB, AF, B0..B9"""
+    cont = [0xab, 0xaf] + list(range(0xb0, 0xba))
+    lead = {2: range(0xc2, 0xdb), 3: [x for x in range(0xe1, 0xf0) if x != 0xed], 4: range(0xf0, 0xf4)}[width]
+    import itertools as it
+    allc = []
+    for l in lead:
+        for cs in it.product(cont, repeat=width - 1):
+            try: allc.append(bytes((l,) + cs).decode('utf-8'))
+            except UnicodeDecodeError: pass
+    if count is None or count >= len(allc): return allc
+    return [allc[rng.below(len(allc))] for _ in range(count)]
+
+
+def dec_texts2(rng, tier):
+    """(class, text) for the decoder, second pass.  Apart from the class 'valid-limit' every text holds a character outside the
+    alphabet (the check decides by has_bad(), never by the class name)."""
+    quick = tier == 'quick'
+    out = []
+    bad_ascii = BAD_ASCII
+    spec = nonascii_specials()
+
+    # R1. BYTE length a multiple of 4 although a multi-byte character is inside: every 2-byte character U+0080..U+07FF at each
+    #     alignment inside a 4-byte window, across the window edge, twice, and at the four places of a quartet (5 bytes)
+    two = [chr(cp) for cp in range(0x80, 0x800)]
+    for c in two:
+        out += [('bytes4', c + 'AA'), ('bytes4', 'Q' + c + 'A'), ('bytes4', 'QQ' + c), ('bytes4', 'QUJ' + c + 'QUJ'), ('bytes4', c + c),
+                ('bytes4', 'Q' + c + '='), ('bytes4', c + '=='), ('bytes4', 'QUJD' + c + 'Q=')]
+        if not quick or ord(c) % 4 == 0 or ord(c) >= 0x200:
+            for pos in range(4): out.append(('nonascii2', 'QUJD'[:pos] + c + 'QUJD'[pos + 1:]))
+    a2, a3, a4 = _utf8_alias(2), _utf8_alias(3, rng, 300 if quick else None), _utf8_alias(4, rng, 300 if quick else 3000)
+    for c in a2:
+        out += [('bytes4-alias', c + c + c + c), ('bytes4-alias', 'QUJD' + c + c), ('bytes4-alias', c + c + 'QUJD'), ('bytes4-alias', 'QQ' + c + 'QUJD')]
+    for c in a3:
+        out += [('bytes4-alias', c + 'A'), ('bytes4-alias', 'A' + c), ('bytes4-alias', c + '='), ('bytes4-alias', 'QUJD' + c + 'Q'), ('bytes4-alias', 'Q' + c + 'QUJD'),
+                ('bytes4-alias', c + c + c + c), ('bytes4-alias', 'QU' + c + 'JDQ')]
+    for c in a4:
+        out += [('bytes4-alias', c), ('bytes4-alias', 'QUJD' + c), ('bytes4-alias', c + 'QUJD'), ('bytes4-alias', c + c), ('bytes4-alias', 'QU' + c + 'JD')]
+    # 3-byte characters by their LOW byte: for every high byte 08..FF one character ending in each of five alphabet codes
+    for hi in range(0x08, 0x100):
+        if 0xd8 <= hi <= 0xdf: continue
+        for lo in (0x41, 0x7a, 0x30, 0x2b, 0x2f, 0x3d):
+            c = chr(hi * 0x100 + lo)
+            out.append(('nonascii2', 'QU' + c + 'D')); out.append(('nonascii2', c + 'UJD'))
+    # Unicode decimal digits and letters-that-are-numbers (a validity test by char::is_alphanumeric / is_numeric / to_digit)
+    for base in (0x660, 0x6f0, 0x7c0, 0x966, 0x9e6, 0xe50, 0xff10, 0x1d7ce, 0x1d7d8, 0x2460, 0x2170):
+        for d in range(10):
+            c = chr(base + d)
+            out.append(('nonascii2', 'QUJ' + c)); out.append(('nonascii2', c + c + c + c)); out.append(('nonascii2', 'Q' + c + '=='))
+
+    # R2. a multi-byte character across EVERY byte offset 1..135 of a text (an error message, a log line or a peek that cuts the
+    #     text at a fixed byte offset): the character alone is the error ...
+    T = b64(rng.bytes(99))                                   # 132 characters
+    for p in range(len(T)):
+        for width in (2, 3, 4):
+            out.append(('cut-straddle', T[:p] + widen(T[p], width) + T[p + 1:]))
+    T2 = b64(rng.bytes(300))                                 # 400 characters
+    for p in list(range(120, 140)) + list(range(190, 210)) + list(range(248, 262)) + list(range(296, 304)) + list(range(380, 400)):
+        out.append(('cut-straddle', T2[:p] + widen(T2[p], 2 + p % 3) + T2[p + 1:]))
+    #     ... or an ASCII character is the error and the multi-byte character sits at a distance from it or from the start
+    for p in range(1, len(T)):
+        w = widen(T[p], 3 if p % 2 else 2)
+        out.append(('cut-two', '!' + T[1:p] + w + T[p + 1:]))
+        out.append(('cut-two', T[:p] + w + T[p + 1:-1] + '!'))
+    for at in (60, 63, 64):
+        for d in list(range(-40, 0)) + list(range(1, 41)):
+            p = at + d
+            for width in (2, 3, 4) if abs(d) <= 12 else (3,):
+                s = list(T); s[at] = '-'; s[p] = widen(T[p], width)
+                out.append(('cut-two', ''.join(s)))
+
+    # R3. a window loop with a remainder: a bad character at window-relative places of texts of 16 k + r characters, in each
+    #     padding form (the bad character in the last whole window, in the remainder, next to the padding)
+    rot = 0
+    fixed_bad = ['-', '_', '\n', ' ', '\x00', '.']
+    for L in (16, 20, 32, 36, 64, 68, 72, 128, 132, 192, 256, 260, 512, 516) + ((1024, 1028) if quick else (1024, 1028, 2048, 4096, 4100)):
+        for short in (0, 1, 2):
+            t = b64(rng.bytes(L // 4 * 3 - short))
+            places = sorted({p for p in (0, 1, 3, 4, 15, 16, 17, 31, 32, 33, 63, 64, 65, L // 2, L - 17, L - 16, L - 15, L - 8, L - 5, L - 4, L - 3, L - 2, L - 1)
+                             if 0 <= p < L})
+            if quick and L >= 512: places = sorted({64, L // 2, L - 17, L - 5, L - 1})
+            elif quick and L >= 192: places = sorted(set(places[::2] + [L - 1, L - 5, L - 17]))
+            for p in places:
+                rs = fixed_bad + [bad_ascii[(rot + 7 * i) % len(bad_ascii)] for i in range(4)] + [spec[(rot + i) % len(spec)] for i in range(2)]
+                rot += 5
+                if quick and L >= 512: rs = rs[rot % 3::3]
+                elif quick and L >= 192: rs = rs[rot % 2::2]
+                for r in rs:
+                    out.append(('window', t[:p] + r + t[p + 1:]))
+    # every ASCII bad character in the last whole window / the remainder of a 68- and a 132-character text
+    for L in (68, 132):
+        t = b64(rng.bytes(L // 4 * 3))
+        for r in bad_ascii:
+            for p in (L - 5, L - 1, 63, 64):
+                out.append(('window', t[:p] + r + t[p + 1:]))
+
+    # R4. text that went through another encoding layer: percent-encoding, '+' turned into a blank, JSON / backslash escapes,
+    #     quoted-printable, HTML entities
+    bases = ['QQ==', 'QUI=', '/w==', '+/8=', '+/+/', 'a+b/', 'ab+/cd==', '++++', '////'] + [b64(rng.bytes(n)) for n in (1, 2, 4, 5, 7, 8, 10, 30)]
+    bases += [b64(b'\xfb\xef\xbe' * 2 + rng.bytes(1)), b64(b'\xff\xff' + rng.bytes(2))]
+    def pct(ch, upper=True): return '%' + (format(ord(ch), '02X') if upper else format(ord(ch), '02x'))
+    for t in bases:
+        forms = set()
+        for chars in ('=', '+/', '=+/'):
+            for upper in (True, False):
+                forms.add(''.join(pct(c, upper) if c in chars else c for c in t))
+        forms.add(''.join(pct(c) for c in t))
+        forms.add(t.replace('+', ' ')); forms.add(t.replace('+', '%20')); forms.add(t.replace('/', '\\/')); forms.add(t.replace('=', '\\u003d'))
+        forms.add(t.replace('+', '\\u002b').replace('/', '\\u002f')); forms.add(t.replace('=', '=3D')); forms.add(t.replace('=', '&#61;'))
+        forms.add(t.replace('=', '&equals;')); forms.add(t.replace('+', '&#43;')); forms.add(t.rstrip('=') + '%3D' * (len(t) - len(t.rstrip('='))))
+        forms.add(t[:4] + '=\r\n' + t[4:]); forms.add(t + '%0A'); forms.add(t + '%0D%0A'); forms.add('%20' + t); forms.add(t + '%00')
+        forms.add(t.replace('=', '%3D', 1)); forms.add(t.replace('=', '.')); forms.add(t.replace('=', '~')); forms.add(t.replace('=', '*'))
+        # a comment syntax or a trailing separator around the value
+        forms.update(('#x\n' + t, t + ' #x', t + '\n#x\n', '; x\n' + t, '// x\n' + t, t + ' // x', t + ',', t + ';', t + '\\', t + '=' + ',', '=?utf-8?B?' + t + '?='))
+        forms.discard(t)
+        for f in sorted(forms): out.append(('layered', f))
+
+    # R5. two quartets of one text that are equal, differ in one character, or differ only in case - the second one (or the first)
+    #     broken in one place
+    for _ in range(12 if quick else 200):
+        q = ''.join(rng.choice(ALPHABET) for _ in range(4))
+        for other in (q, q.swapcase(), q[::-1], q[:3] + rng.choice(ALPHABET)):
+            for k in range(4):
+                r = rng.choice(bad_ascii + spec[:20])
+                brk = other[:k] + r + other[k + 1:]
+                out += [('twin-quartets', q + brk), ('twin-quartets', brk + q), ('twin-quartets', q + q + brk), ('twin-quartets', q + brk + q)]
+
+    # R6. a bad character at and just beyond a length limit (a decoder that refuses - or only looks at - the first N characters)
+    for L in (1000, 1024, 2048, 4096) + ((8192, 10000) if not quick else ()):
+        t = b64(rng.bytes(L // 4 * 3 + 6))                   # L + 8 characters
+        out.append(('valid-limit', t)); out.append(('valid-limit', t[:L])); out.append(('valid-limit', t[:L + 4]))
+        for p in (L - 1, L, L + 1, L + 3, L + 4, L + 7):
+            for r in ('-', '!', '\n', '\u0141') if L <= 2048 or not quick else ('-', '\n'):
+                out.append(('limit', t[:p] + r + t[p + 1:]))
+    return out
+
+
+def history(rng, tier):
+    """ONE ordered list of operations for ONE process (the runner must not cut it): pairs and short runs of calls whose SECOND member is
+    wrong if anything survives the first - a memo keyed by part of the input, a buffer that is not reset on every path, a table
+    filled lazily.  Items: ('enc', bytes) or ('dec', text, origin) with origin 'valid' for canonical text (judged by the round trip)
+    and another word for text that holds a bad character (judged by has_bad)."""
+    quick = tier == 'quick'
+    out = []
+    E = lambda b: out.append(('enc', b))
+    V = lambda t: out.append(('dec', t, 'valid'))
+    B = lambda t: out.append(('dec', t, 'hist-bad'))
+    bad = ['!', '-', '\n', ' ', '\x00', '\u0141', '_', '=']
+    def badchar(): return rng.choice(bad[:7])
+    for rep in range(6 if quick else 60):
+        # H1. the same text twice, then broken at its end / start / middle; broken first, then whole
+        for n in (3, 6, 9, 12, 30, 33, 60, 96, 300):
+            t = b64(rng.bytes(n)); r = badchar(); L = len(t)
+            V(t); V(t); B(t[:-1] + r); V(t); B(r + t[1:]); B(t[:L // 2] + r + t[L // 2 + 1:]); V(t)
+            t = b64(rng.bytes(n)); B(t[:L - 2] + r + t[L - 1:]); V(t)
+        # H2. two valid texts of one length that share all but the last / first / a middle group; one a prefix of the other
+        for n in (3, 4, 5, 6, 12, 13, 14, 33, 48, 49, 50, 96, 255):
+            x = rng.bytes(n)
+            y1 = x[:-1] + bytes([x[-1] ^ (1 << rng.below(8))])
+            y2 = bytes([x[0] ^ (1 << rng.below(8))]) + x[1:]
+            m = n // 2
+            y3 = x[:m] + bytes([x[m] ^ 0x10]) + x[m + 1:]
+            for y in (y1, y2, y3): V(b64(x)); V(b64(y))
+            V(b64(x)); V(b64(x + rng.bytes(3))); V(b64(x)); V(b64(x[:n - n % 3 - 3] if n > 5 else x[:3])); V(b64(x))
+            E(x); E(y1); E(x); E(y2); E(x); E(y3); E(x + x[:1]); E(x); E(x[:-1]); E(x)
+        # H3. long, then short, then long; the empty input in between
+        for (a, b) in ((300, 3), (3, 300), (999, 1), (1, 999), (64, 63), (63, 64), (30, 29), (29, 30), (2, 1), (1, 2)):
+            xa, xb, xc = rng.bytes(a), rng.bytes(b), rng.bytes(a)
+            E(xa); E(xb); E(xc); E(b''); E(xb); E(xa)
+            V(b64(xa)); V(b64(xb)); V(b64(xc)); V(''); V(b64(xb)); V(b64(xa))
+            E(xa); V(b64(xb)); E(xb); V(b64(xa))
+        # H4. a text that fails AFTER part of it was decoded (first / middle / last quartet, alone, in a partial chunk), then a valid one
+        for n in (1, 2, 3, 6, 9, 30, 31, 32):
+            t = b64(rng.bytes(30)); u = b64(rng.bytes(n)); r = badchar()
+            for broken in (t[:-1] + r, t[:4] + r + t[5:], r + t[1:], t + r, t[:-2], t + 'A', t[:20] + '\u0141' + t[21:], t[:-4] + 'A===', r):
+                out.append(('dec', broken, 'hist-fail')); V(u); E(rng.bytes(n)); V(u)
+        # H5. the three spellings of one leading byte: 'xy==' (1 byte), 'xyA=' (+ a zero byte), 'xyAA' (+ two zero bytes) in every order
+        for _ in range(4):
+            b0 = rng.below(256)
+            forms = [bytes([b0]), bytes([b0, 0]), bytes([b0, 0, 0])]
+            for order in ((0, 1, 2), (0, 2, 1), (1, 0, 2), (1, 2, 0), (2, 0, 1), (2, 1, 0)):
+                salt = rng.bytes(3)
+                for i in order: V(b64(forms[i])); E(forms[i])
+                V(b64(salt)); E(salt)
+            b1 = rng.below(256)
+            forms = [bytes([b0, b1]), bytes([b0, b1, 0]), bytes([0, b0, b1]), bytes([b0]), bytes([0, 0, b0]), bytes([0, b0])]
+            for k in range(6):
+                for i in range(6):
+                    f = forms[(i * (k + 1) + k) % 6] if k < 5 else forms[5 - i]
+                    E(f); V(b64(f))
+                    if rng.chance(1, 2): E(f + forms[i]); V(b64(forms[i] + f))
+        # H6. two texts that differ only in letter case (both canonical)
+        for n in (3, 6, 9, 30):
+            t = b64(rng.bytes(n))
+            for u in (t.swapcase(), t.lower(), t.upper()):
+                V(t); V(u); V(t); V(t + u); V(u + t)
+                E(base64.b64decode(t)); E(base64.b64decode(u))
+    # H7. more distinct texts than a small table holds, then the same again (in order, reversed), then each broken in one place
+    many = [b64(rng.bytes(3 * rng.range(1, 6) - rng.below(3))) for _ in range(300 if quick else 3000)]
+    for t in many: V(t)
+    for t in many: V(t)
+    for t in reversed(many): V(t)
+    for t in many:
+        p = rng.below(len(t)); B(t[:p] + badchar() + t[p + 1:]); V(t)
+    raws = [rng.bytes(rng.range(1, 16)) for _ in range(300 if quick else 3000)]
+    for x in raws: E(x)
+    for x in reversed(raws): E(x)
+    for x in raws: E(x[:-1]); E(x)
     return out
